@@ -87,6 +87,18 @@ def correspondence(rep, ctx):
             if len(c) > 4:
                 inv = c[4] * inv
             n0 = {view.index[k]: (sym_to_frac(sympy.Rational(v)) if getattr(v, "is_Float", False) else sym_to_frac(v)) for k, v in inv.contents.items()}
+            if unit == "num" and len(c) == 4:
+                # "for the supplied amounts (each taken to 15 significant digits)": the atoms the object holds are the supplied
+                # numbers, whatever their magnitude (this reading is independent of the library: the shortest decimal that
+                # round-trips has at most 17 digits; 15 significant digits of it differ by < 1e-14 relative)
+                for key_, x_ in contents.items():
+                    held = n0.get(view.index[rd.utils.parse_nuclide_str(key_)])
+                    want_ = Fraction(repr(float(x_)))
+                    if held is not None and abs(held - want_) > want_ / 10**14:
+                        rep.violation("failing-input", f"InventoryHP({contents!r}, 'num') holds {float(held)!r} atoms of {key_}, supplied {x_!r} "
+                                      f"(relative difference {float(abs(held - want_) / want_):.2e}; 15 significant digits allow 1e-14)",
+                                      {"call": "hp-amount-reading", "contents": contents}, True)
+                        break
             ts = sym_to_frac(conv.time_unit_conv(sympy.nsimplify(t), tu, "s", dd.sympy_year_conv))
             if any(v is None for v in n0.values()) or ts is None:
                 rep.inconclusive += 1     # irrational reading (algebraic atomic mass / nsimplify artefact)
